@@ -36,5 +36,22 @@ for cdir in sorted(glob.glob("/tmp/wt-C*/SEED/change*")):
         "first_round_checks": {p: {"caught": r["rc"] == 1, "verdict": (r["lines"][0] if r["lines"] else "")[:200], "first_failing_cases": r.get("replay_head", [])[:3]}
                                for p, r in res.get("checks", {}).items()},
     }
+    res2 = json.load(open(f"{cdir}/result2.json")) if os.path.exists(f"{cdir}/result2.json") else {}
+    if res2:
+        meta_out["second_round_checks"] = {p: {"caught": r["rc"] == 1, "verdict": (r["lines"][0] if r["lines"] else "")[:200], "first_failing_cases": r.get("replay_head", [])[:3]}
+                                           for p, r in res2.get("checks", {}).items()}
+    fires = []
+    for rr in (res, res2):
+        for p, r in rr.get("checks", {}).items():
+            if r["rc"] != 1: continue
+            for h in r.get("replay_head", [])[:4]:
+                if h.startswith("{"):
+                    try: fires.append(f"{p}: correspondence/obligation {json.loads(h).get('id', json.loads(h).get('kind'))}")
+                    except Exception:
+                        import re
+                        m = re.search(r'"id": "([^"]+)"', h); fires.append(f"{p}: correspondence/obligation {m.group(1) if m else '?'}")
+                else:
+                    fires.append(f"{p}: search `{h.split(' ')[0]}` e.g. `{h[:90]}`"); break
+    meta_out["caught_by"] = "; ".join(dict.fromkeys(fires))
     json.dump(meta_out, open(f"{dst}/meta.json", "w"), indent=1)
     print("kept", sid, {p: ("caught" if r["rc"] == 1 else "MISSED") for p, r in res.get("checks", {}).items()})
